@@ -1,3 +1,11 @@
 //! Safe-Rust verification hooks for this module (accessors/wrappers only; no logic).
 #![allow(missing_docs, unused_imports, dead_code)]
 use super::*;
+
+// ---- statime_h (C45): InternalState from its parts
+pub fn internal_state_from_parts(csptp_state: CsptpState, time_snapshot: TimeSnapshot, active_source: Option<ClockId>) -> InternalState {
+    InternalState { csptp_state, time_snapshot, active_source }
+}
+pub fn internal_state_parts(s: &InternalState) -> (CsptpState, TimeSnapshot, Option<ClockId>) {
+    (s.csptp_state, s.time_snapshot, s.active_source)
+}
